@@ -56,6 +56,9 @@ def judge_stmt(text, spec_t, r, problems):
     elif spec_t["k"] == "struct":
         if not st or st.get("text") != "ZS":
             problems.append("static type: impl %s spec ZS: %s" % (st, text))
+    elif spec_t["k"] == "slist":
+        if not st or not str(st.get("text", "")).startswith("List<ZS"):
+            problems.append("static type: impl %s spec List<ZS>: %s" % (st, text))
     elif spec_t["k"] == "list":
         if not st or not str(st.get("text", "")).startswith("List<"):
             problems.append("static type: impl %s spec list: %s" % (st, text))
